@@ -72,7 +72,9 @@ def _cli_case(draw, tier):
     vec = {n: draw(st.sampled_from(hist.VEC_STATES)) for n in names}
     pats = draw(st.one_of(st.just([]), gen.patterns(names)))
     return {"kind": "cli", "desc": desc, "invoke": draw(gen.invoke()), "backend": draw(st.sampled_from(["slurm", "slurm", "sge", "lsf"])),
-            "vector": vec, "patterns": pats}
+            "vector": vec, "patterns": pats,
+            # commands that only look, run between the earlier history and the run that is checked
+            "looks": draw(st.lists(st.sampled_from(["status", "dry", "status-one", "info"]), max_size=2))}
 
 
 def strategy(tier):
@@ -169,6 +171,11 @@ def run_cli(case):
         proj.set_files(sources)
         hist.prepopulate(proj, R, vec)
         proj.set_files({p: desc["files"].get(p) for p in R.producers})
+        for look in case.get("looks") or []:
+            args = {"status": ["status"], "dry": ["run", "--dry-run"], "status-one": ["status", names[0]], "info": ["info"]}[look]
+            rl = proj.gwf(args)
+            if rl.code != 0 or rl.crashed:
+                viols.append(Violation({"kind": "look-failed", "cmd": look}, rl.brief()))
         before = len(proj.sim.submissions())
         nlog = len(proj.sim.log)
         r = proj.gwf(["run", *pats])
@@ -205,6 +212,8 @@ def run_cli(case):
     labels = _labels(R, eff, requested) | {"cli", "backend-" + flavour}
     if pats:
         labels.add("patterns" if requested else "patterns-match-nothing")
+    if case.get("looks"):
+        labels.add("looked-before-run")
     return CaseResult(viols, {"mixed-vector", "multi-dep-in-cone"} <= labels, sorted(labels))
 
 
